@@ -74,6 +74,9 @@ def sanitize_index(ind):
     elif is_dask_collection(ind):
         return ind
     index_array = asanyarray_safe(ind, like=ind)
+    if index_array.ndim == 0 and np.issubdtype(index_array.dtype, np.integer):
+        # a zero-dimensional integer array indexes like the integer it holds
+        return int(index_array)
     if index_array.dtype == bool:
         nonzero = np.nonzero(index_array)
         if len(nonzero) == 1:
